@@ -1373,7 +1373,7 @@ def run_design(rec: Rec, D, A, rnd: random.Random, case: dict, sched: str = "eag
                             if nact >= 2:
                                 rec.count("combiner_cycles_with_several_contributors")
                 if run[k]:
-                    exp_out = ((din[k] + j + 1) & 15) if md["has_in"] else j + 1
+                    exp_out = ((din[k] + j + 1) & 15) if md["has_in"] else (j + 1) & 15  # outputs are 4 bits wide
                     if dout[k] != exp_out:
                         rec.harness_error(f"method output differs from its definition (design {case.get('design')}, method {j})")
                 for al in aliases_of[j]:
